@@ -438,13 +438,22 @@ fn rows(w: &World) -> Vec<Row> {
                 }
                 Nft::Bundle => {
                     let (bd, i) = v.bundle.as_ref().unwrap();
+                    // reversed attack: the attacker closes HIS OWN empty bundled position of the same index (his token, his
+                    // signature) but names the victim's bundle account — the bit cleared would be the victim's
+                    let mut extra = vec![];
+                    if *i == 1 || *i == 2 {
+                        let mut rev = cw::ix_close_bundled(&w.attacker_bundle, *i, w.attacker.key, receiver);
+                        let bi = idx(&rev, &w.attacker_bundle.addr);
+                        rev.accounts[bi].pubkey = bd.addr;
+                        extra.push(Variant { label: "attacker_own_bundled_position_with_victim_bundle".into(), class: "twin", prep: vec![], ix: rev, expect: Expect::Fail });
+                    }
                     out.push(prow(
                         "close_bundled_position",
                         v,
                         cw::ix_close_bundled(bd, *i, o.key, receiver),
                         vec![],
                         vec![(bd.addr, w.attacker_bundle.addr)],
-                        vec![],
+                        extra,
                     ));
                 }
             }
